@@ -7,6 +7,7 @@ import Flumine.Txn
 import Flumine.Lemmas.Packs
 import Flumine.Lemmas.OrderLemmas
 import Flumine.Props.C03
+import Flumine.Lemmas.Final
 namespace Flumine.C02
 open Flumine Flumine.World Flumine.OL Flumine.Packs
 
@@ -294,6 +295,28 @@ theorem force_skips_only_controls (w : World) (t : Txn) (oid : Nat) (red : Optio
     w.txnCancel t oid red false = w.txnCancel t oid red true := by
   unfold txnCancel
   simp only [Bool.not_false, if_true, Bool.not_true, Bool.false_eq_true, if_false, h]
+
+/-- ... also for placements: a FORCED placement of an order that has been placed before - it is in the blotter of the
+    transaction's market, or it is complete (the replacement order of a refused re-placement, fix F24) - is refused like an
+    unforced one; nothing is filed in the transaction, no status changes; all that happens is that `order.client` has been
+    overwritten with the transaction's client before the test (known finding F17) -/
+theorem forced_place_of_a_placed_order_refused (w : World) (t : Txn) (oid : Nat) (v : Option Int) (ex : Bool)
+    (h : oid ∈ (w.market! t.market).blotter ∨ (w.order! oid).status = some .executionComplete) :
+    w.txnPlace t oid v ex true = (w.modifyOrder oid fun o => { o with client := some t.client }, t, .error .alreadyPlaced) := by
+  unfold txnPlace
+  simp only [Bool.not_true, Bool.and_false, Bool.false_eq_true, if_false]
+  have hst : ((w.modifyOrder oid fun o => { o with client := some t.client }).order! oid).status = (w.order! oid).status := by
+    rcases Fin.order!_modify w oid oid (fun o => { o with client := some t.client }) (fun _ => rfl) with e | ⟨_, _, e⟩
+    · rw [e]
+    · rw [e]
+  have hc : ((((w.modifyOrder oid fun o => { o with client := some t.client }).market! t.market).blotter.contains oid) ||
+      (((w.modifyOrder oid fun o => { o with client := some t.client }).order! oid).status == some .executionComplete)) = true := by
+    rcases h with h | h
+    · have : ((w.modifyOrder oid fun o => { o with client := some t.client }).market! t.market).blotter.contains oid = true :=
+        List.contains_iff_mem.mpr h
+      rw [this]; rfl
+    · rw [hst, h]; simp
+  rw [if_pos hc]
 
 /-! ### non-vacuity -/
 
